@@ -283,7 +283,7 @@ def factoryWalk (ts : Toks) : Option String := do
   | some e =>
     let after := e.params.map (fun p => (p.1, modify ic fc p.2))
     pure (s!"ok {showQ e.typeId} {showParams e.params} cloneeq 1 probe {if probe then "1" else "-1"} " ++
-      s!"origsame 1 clone {showParams after}")
+      s!"origsame 1 reclone 1 clone {showParams after}")
 
 def handle (fam : String) (ts : Toks) : Option String :=
   match fam, ts with
